@@ -1574,8 +1574,10 @@ impl<T: Transport, Env: UtpEnvironment> VirtualSocket<T, Env> {
             }
 
             // If we are done and there's nothing outstanding to send, give the remote last chance to
-            // send a meaningful update (their FIN) or die.
-            if self.state.is_local_fin_or_later() {
+            // send a meaningful update (their FIN) or die. While data is still unacknowledged its
+            // retransmissions (and the regular inactivity timeout) decide instead: a few losses of one
+            // segment must not kill what is left of the stream.
+            if self.state.is_local_fin_or_later() && self.user_tx_segments.is_empty() {
                 const SHUTDOWN_FINAL_CHANCE_DELAY: Duration = Duration::from_secs(1);
                 self.timers.remote_inactivity_timer.arm(
                     self.this_poll.now,
